@@ -174,7 +174,7 @@ def enum_usages(tier, rng):
     two = [('seq', [a, b]) for a in plain for b in plain]
     three = [('seq', [a, b, c]) for a in plain[:40] for b in plain[:40] for c in plain[:40]]
     multi = [[('seq', [a]), ('seq', [b])] for a in plain for b in plain]
-    n2, n3, nm, no = (250, 60, 60, 200) if tier == "quick" else (3000, 1500, 1500, 3000)
+    n2, n3, nm, no = (250, 60, 60, 200) if tier == "quick" else (1500, 600, 600, 1500)
     for u in rng.sample(two, min(n2, len(two))):
         usages.append(([u], False))
     for u in rng.sample(three, min(n3, len(three))):
